@@ -135,3 +135,10 @@ Proof.
   split. { reflexivity. }
   cbn. repeat split; try (repeat (constructor; [reflexivity|]); constructor); try (left; discriminate); try discriminate.
 Qed.
+
+(* ---- resolve_register_aliases as the source has it (Gen/Guards.v; Proofs/Guards.v): the item is rebuilt from ALL its fields in order,
+   only a register field whose value is a constant name changes -- the immediate, is_auipc_jump, aq / rl and the fence sets survive *)
+From BB Require Gen.Guards Proofs.Guards.
+Theorem C01_register_aliases_from_source : Proofs.Guards.register_aliases_from_source_stmt.
+Proof. exact Proofs.Guards.register_aliases_from_source. Qed.
+Print Assumptions C01_register_aliases_from_source.
